@@ -148,6 +148,53 @@ Fixpoint expect (lit : bytes) (s : bytes) : option bytes :=
 
 Definition max_nesting_depth : Z := 10000.
 
+(* array elements after "[" (the array is not empty), object members after "{";
+   pv parses one value one nesting level further down *)
+Fixpoint json_elems (pv : bytes -> option (value * bytes)) (g : nat) (s : bytes) (acc : list value)
+  : option (value * bytes) :=
+  match g with
+  | O => None
+  | S g' =>
+    match pv s with
+    | None => None
+    | Some (v, r1) =>
+      match skip_ws r1 with
+      | 44%N :: r2 => json_elems pv g' r2 (v :: acc)
+      | 93%N :: r2 => Some (VArr (rev (v :: acc)), r2)
+      | _ => None
+      end
+    end
+  end.
+
+Fixpoint json_members (pv : bytes -> option (value * bytes)) (g : nat) (s : bytes) (acc : obj)
+  : option (value * bytes) :=
+  match g with
+  | O => None
+  | S g' =>
+    match skip_ws s with
+    | 34%N :: r0 =>
+      match string_body (S (length r0)) r0 [] with
+      | None => None
+      | Some (k, r1) =>
+        match skip_ws r1 with
+        | 58%N :: r2 =>
+          match pv r2 with
+          | None => None
+          | Some (v, r3) =>
+            let acc' := obj_set k v acc in   (* duplicate key: last wins *)
+            match skip_ws r3 with
+            | 44%N :: r4 => json_members pv g' r4 acc'
+            | 125%N :: r4 => Some (VObj acc', r4)
+            | _ => None
+            end
+          end
+        | _ => None
+        end
+      end
+    | _ => None
+    end
+  end.
+
 (* value := any JSON value; fuel bounds the number of bytes looked at *)
 Fixpoint parse_value (fuel : nat) (depth : Z) (s0 : bytes) : option (value * bytes) :=
   match fuel with
@@ -178,54 +225,13 @@ Fixpoint parse_value (fuel : nat) (depth : Z) (s0 : bytes) : option (value * byt
         if max_nesting_depth <? depth + 1 then None else
         match skip_ws r with
         | 93%N :: r' => Some (VArr [], r')
-        | _ =>
-          (fix elems (g : nat) (s : bytes) (acc : list value) : option (value * bytes) :=
-             match g with
-             | O => None
-             | S g' =>
-               match parse_value f (depth + 1) s with
-               | None => None
-               | Some (v, r1) =>
-                 match skip_ws r1 with
-                 | 44%N :: r2 => elems g' r2 (v :: acc)
-                 | 93%N :: r2 => Some (VArr (rev (v :: acc)), r2)
-                 | _ => None
-                 end
-               end
-             end) f r []
+        | _ => json_elems (parse_value f (depth + 1)) f r []
         end
       else if N.eqb c 123 then
         if max_nesting_depth <? depth + 1 then None else
         match skip_ws r with
         | 125%N :: r' => Some (VObj [], r')
-        | _ =>
-          (fix members (g : nat) (s : bytes) (acc : obj) : option (value * bytes) :=
-             match g with
-             | O => None
-             | S g' =>
-               match skip_ws s with
-               | 34%N :: r0 =>
-                 match string_body (S (length r0)) r0 [] with
-                 | None => None
-                 | Some (k, r1) =>
-                   match skip_ws r1 with
-                   | 58%N :: r2 =>
-                     match parse_value f (depth + 1) r2 with
-                     | None => None
-                     | Some (v, r3) =>
-                       let acc' := obj_set k v acc in   (* duplicate key: last wins *)
-                       match skip_ws r3 with
-                       | 44%N :: r4 => members g' r4 acc'
-                       | 125%N :: r4 => Some (VObj acc', r4)
-                       | _ => None
-                       end
-                     end
-                   | _ => None
-                   end
-                 end
-               | _ => None
-               end
-             end) f r []
+        | _ => json_members (parse_value f (depth + 1)) f r []
         end
       else None
     end
